@@ -235,7 +235,7 @@ func TestC06Programs(t *testing.T) {
 	h := hx.Begin(t, "C06", "programs")
 	cfgs := configsWhere(sim.IsCoherent)
 	rapid.Check(t, func(rt *rapid.T) {
-		p := drawProfile(rt, []gen.Profile{gen.MEM, gen.WALK, gen.SHADOW, gen.SHADOWSLOW, gen.CACHE, gen.PAIR}, []int{30, 15, 15, 15, 15, 10})
+		p := drawProfile(rt, []gen.Profile{gen.MEM, gen.WALK, gen.SHADOW, gen.SHADOWSLOW, gen.CACHE, gen.PAIR, gen.OWNER}, []int{25, 13, 13, 14, 15, 8, 12})
 		var c *gen.Case
 		if p.Name == "PAIR" {
 			c = gen.PairProgram(rt, p)
